@@ -77,7 +77,10 @@ Inductive src :=
 | SWrong (k : N)                         (* AnyValueWrapper of another type, type id k *)
 | SBoxWrong (k : N)                      (* owning erased value reporting type id k *)
 | SLazy (depth : N) (vid : nat) (idx : N)          (* vecs[vid].at(idx).lazy_clone()^depth *)
-| STemp (vid : nat) (k : tkind) (idx : N).         (* removal handle of another vector *)
+| STemp (vid : nat) (k : tkind) (idx : N)          (* removal handle of another vector *)
+| SLazyUser (depth : N).                 (* user_value.lazy_clone()^depth where user_value is a user-defined
+                                            AnyValueCloneable + AnyValue with the CONCRETE [Type] = the element
+                                            type (so LazyClone's Type is known too), owning a fresh value *)
 
 Inductive sink :=
 | KDrop
@@ -144,7 +147,9 @@ Inductive odrop :=
 | DOwned (t : N)               (* owning wrapper: destructor of value t runs *)
 | DReclaim (t : N)             (* raw wrapper: the harness destroys the value after the panic *)
 | DTemp (vid : nat) (h : temp) (* removal handle: TempValue::drop on its vector *)
-| DElem (vid : nat) (p : eptr). (* drained element: Element::drop *)
+| DElem (vid : nat) (p : eptr) (* drained element: Element::drop *)
+| DAfter (t : N).              (* a lazy clone of a user-owned value: that value lives on in the caller's frame
+                                  and is destroyed there afterwards, whether the offer was taken or refused *)
 
 Record offer := { f_ty : N; f_src : vsrc; f_checked : bool; f_drop : odrop }.
 
@@ -163,11 +168,13 @@ Definition drop_offer (c : cfg) (o : offer) : M world unit :=
   | DReclaim t => harness_drop c t
   | DTemp vid h => on_vec vid (temp_drop c false h)
   | DElem vid p => on_vec vid (elem_drop c p)
+  | DAfter t => harness_drop c t
   end.
 (** After a successful [move_into]: a removal handle compacts its vector. *)
 Definition finish_offer (c : cfg) (o : offer) : M world unit :=
   match f_drop o with
   | DTemp vid h => on_vec vid (temp_consume c false h)
+  | DAfter t => harness_drop c t
   | _ => ret tt
   end.
 
@@ -234,6 +241,9 @@ Definition make_offer (c : cfg) (s : src) : M world offer :=
           ret {| f_ty := c_ty c; f_src := VBytes bs false; f_checked := true;
                  f_drop := DTemp vid h |}
       end
+  | SLazyUser _ =>
+      do t <- freshw c;
+      ret {| f_ty := c_ty c; f_src := VClone (enc_c c t) true; f_checked := true; f_drop := DAfter t |}
   end.
 
 (** ** Sinks of a removal handle *)
